@@ -412,7 +412,8 @@ NumValues(S) ==
 (* EDIT ACTIONS.  Each takes the current schema S (= new), the base schema O *)
 (* (= old), and yields a set of [s |-> schema', e |-> log entry].            *)
 (* log entry: action, safe?, documented?, combinator, sub-class, benign? (unsafe by the  *)
-(* catalogue but provably without effect on the wire), pos = the instance parameters   *)
+(* catalogue but not claimed to break the wire: theorem UnsafeBreaks is asserted for    *)
+(* every unsafe instance that is not flagged), pos = the instance parameters            *)
 Entry(a, safe, doc, comb, sub, benign, pos) ==
   [a |-> a, safe |-> safe, doc |-> doc, c |-> comb, sub |-> sub, benign |-> benign, pos |-> ToString(pos)]
 SetFields(S, i, fs) == [S EXCEPT ![i] = [@ EXCEPT !.fields = fs]]
